@@ -56,6 +56,7 @@ pub fn interesting_offsets(data: &[u8], max: usize) -> Vec<usize> {
                 }
             }
             b']' => v.push(i + 1),
+            b'[' => v.push(i), // right before a bracket in the middle of a line
             0x80..=0xBF if i > skip => v.push(i), // inside a multi-byte UTF-8 sequence
             _ => {}
         }
@@ -163,23 +164,17 @@ pub fn plan_transport(rng: &mut Rng, plan: &mut Plan, sim_only: bool) {
         let mut e = Vec::new();
         for _ in 0..m {
             let at = if rng.chance(1, 3) { rng.below(6) } else { rng.below(est_calls) } as u32;
-            let burst = 1 + rng.below(3) as u32;
+            // bursts are finite; mostly <= 3, sometimes long (a correct retry loop has no retry budget)
+            let burst = if rng.chance(1, 12) { *rng.pick(&[17u32, 33, 100]) } else { 1 + rng.below(3) as u32 };
             for b in 0..burst {
                 e.push(at + b);
             }
         }
         e.sort_unstable();
         e.dedup();
-        // keep bursts finite: never more than 3 consecutive call indexes
-        let mut out: Vec<u32> = Vec::new();
-        for x in e {
-            let n = out.len();
-            if n >= 3 && out[n - 1] + 1 == x && out[n - 2] + 2 == x && out[n - 3] + 3 == x {
-                continue;
-            }
-            out.push(x);
-        }
-        plan.eintr = out;
+        // bursts stay finite by construction (a finite list of call indexes); cap the total
+        e.truncate(400);
+        plan.eintr = e;
         plan.faults.push("R3-interrupted".into());
     }
 }
